@@ -189,7 +189,8 @@ func drvClient(c *ctx) error {
 			return bs(b)
 		}
 		givenopt, seenopt := opt(gbase), opt(sbase)
-		ev := M{"ev": "client", "method": method, "panic": res, "givenopt": givenopt, "seenopt": seenopt, "cfg": M{"sender": bs([]byte(sender)), "receiver": bs([]byte(receiver)), "auth": bs([]byte(auth))},
+		ids := M{"sender": bs([]byte(cl.GetSenderID())), "receiver": bs([]byte(cl.GetReceiverID())), "async": cl.IsAsync()}
+		ev := M{"ev": "client", "ids": ids, "method": method, "panic": res, "givenopt": givenopt, "seenopt": seenopt, "cfg": M{"sender": bs([]byte(sender)), "receiver": bs([]byte(receiver)), "auth": bs([]byte(auth))},
 			"giventx": le32(txid), "givenzero": txid == 0, "givenrest": bs([]byte(grest)), "givenbase": M{"msgtype": strOf(gbase["MessageType"])},
 			"seen": M{"ok": sok, "http": seenMethod, "ct": bs([]byte(seenCT)), "auth": bs([]byte(seenAuth)), "rest": bs([]byte(srest)),
 				"pv": strOf(sbase["ProtocolVersion"]), "sender": bs([]byte(strOf(sbase["SenderID"]))), "receiver": bs([]byte(strOf(sbase["ReceiverID"]))),
